@@ -105,7 +105,7 @@ def stepRun (items : List Item) (rootClone : List Nat) (times : List Int) (plan 
     | .error e => .error e
     | .ok (log, cc) =>
       let t := times.getD a.commit 0
-      .ok { s with log := log, cc := cc, idx := s.idx + 1, newest := if t > s.newest then t else s.newest }
+      .ok { s with log := log, cc := cc, idx := s.idx + 1, newest := if t > s.newest || s.idx = 0 then t else s.newest }
   | .fork =>
     let (clones, next, log) := cloneItems items (getBranch s.branches first) (a.items.length - 1) s.next s.log
     let bs := (a.items.drop 1).zip clones |>.foldl (fun bs (b, cl) => setBranch bs b cl) s.branches
